@@ -287,8 +287,246 @@ pub fn exec(a: &[&str]) -> String {
             };
             (r as u8).to_string()
         }
+        // idx <yaml bytes hex> -> digest of the whole index + renderings (cross-variant op)
+        "idx" => idx_digest(&parse_bytes(a[1])),
         _ => "BAD-OP".into(),
     }
+}
+
+// ------------------------------------------------------------------------------------------------
+// whole-index digest
+// ------------------------------------------------------------------------------------------------
+
+struct Fnv128(u128);
+impl Fnv128 {
+    fn new() -> Self {
+        Fnv128(0x6c62272e07bb014262b821756295c58d)
+    }
+    fn feed(&mut self, bs: &[u8]) {
+        for &b in bs {
+            self.0 ^= b as u128;
+            self.0 = self.0.wrapping_mul(0x0000000001000000000000000000013B);
+        }
+    }
+}
+
+fn fnv64(bs: &[u8]) -> u64 {
+    let mut h = 0xcbf29ce484222325u64;
+    for &b in bs {
+        h ^= b as u64;
+        h = h.wrapping_mul(0x100000001b3);
+    }
+    h
+}
+
+/// `fmt::Write` sink with a byte cap: alias expansion can blow a rendering up; a capped rendering
+/// fails at the same byte under every configuration.
+struct Capped {
+    buf: String,
+    cap: usize,
+    over: bool,
+}
+impl std::fmt::Write for Capped {
+    fn write_str(&mut self, s: &str) -> std::fmt::Result {
+        if self.buf.len() + s.len() > self.cap {
+            self.over = true;
+            return Err(std::fmt::Error);
+        }
+        self.buf.push_str(s);
+        Ok(())
+    }
+}
+
+fn render(f: impl FnOnce(&mut Capped) -> std::fmt::Result) -> (String, bool) {
+    let mut c = Capped { buf: String::new(), cap: 1 << 20, over: false };
+    let r = f(&mut c);
+    let mut s = c.buf;
+    if c.over {
+        s.push_str("<CAP>");
+    } else if r.is_err() {
+        s.push_str("<FMT-ERR>");
+    }
+    (s, c.over)
+}
+
+fn idx_digest(text: &[u8]) -> String {
+    use std::fmt::Write as _;
+    use succinctly::jq::document::IndentSpec;
+    use succinctly::yaml::YamlIndex;
+    let index = match YamlIndex::build(text) {
+        Ok(i) => i,
+        Err(e) => return format!("err {e:?} / {}", e.to_string().escape_debug()),
+    };
+    let mut sections: Vec<(&'static str, String)> = Vec::new();
+    // every private field, before any accessor touches a lazily built part
+    sections.push(("dbg", format!("{index:?}")));
+    let bp = index.bp();
+    let bp_len = bp.len();
+    sections.push(("ib", format!("{} {}", index.ib_len(), hex_words(index.ib()))));
+    sections.push(("bp", format!("{} {} {}", bp_len, bp.total_ones(), hex_words(bp.words()))));
+    sections.push(("ty", format!("{} {}", index.ty_len(), hex_words(index.ty()))));
+    let opens: Vec<usize> = (0..bp_len).filter(|&p| bp.is_open(p)).collect();
+    // position tables
+    let mut s = String::new();
+    let op = index.open_positions();
+    let _ = write!(s, "n={} compact={};", op.len(), op.is_compact());
+    for i in 0..=opens.len() + 1 {
+        let _ = write!(s, "{}:{},{};", i, opt(index.text_pos_by_open_idx(i)), opt(index.text_end_pos_by_open_idx(i)));
+    }
+    for p in 0..=bp_len {
+        let _ = write!(s, "{}>{},{},{};", p, index.bp_to_open_idx(p), opt(index.bp_to_text_pos(p)), opt(index.bp_to_text_end_pos(p)));
+    }
+    sections.push(("pos", s));
+    // containers / types
+    let mut s = String::new();
+    for &p in &opens {
+        let c = index.is_container(p);
+        let _ = write!(
+            s,
+            "{}:{}{}{}{};",
+            p,
+            c as u8,
+            if c { index.is_sequence_at_bp(p) as u8 } else { 9 },
+            index.count_containers_before(p),
+            index.is_seq_item(text, p) as u8
+        );
+    }
+    sections.push(("cont", s));
+    // interest-bit rank/select and text -> bp lookup
+    let mut s = String::new();
+    let step = if text.len() > 4096 { 7 } else { 1 };
+    let mut pos = 0;
+    while pos <= text.len() {
+        let _ = write!(s, "{},{};", index.ib_rank1(pos), opt(index.find_bp_at_text_pos(pos)));
+        pos += step;
+    }
+    let ones = index.ib_rank1(text.len());
+    for k in 0..=ones + 1 {
+        let _ = write!(s, "s{};", opt(index.ib_select1(k)));
+    }
+    sections.push(("rank", s));
+    // anchors / aliases / tags / comments
+    let mut s = String::new();
+    let _ = write!(s, "has_aliases={};", index.has_aliases());
+    let mut names: Vec<String> = Vec::new();
+    for &p in &opens {
+        let an = index.get_anchor_name(p);
+        if let Some(n) = an {
+            names.push(n.to_string());
+        }
+        let _ = write!(
+            s,
+            "{}:{:?},{},{:?},{:?},{:?},{:?};",
+            p,
+            an,
+            index.is_alias(p) as u8,
+            index.get_alias_target(p),
+            index.get_alias_anchor_name(p),
+            index.get_tag(p),
+            index.get_line_comment(p)
+        );
+    }
+    names.sort();
+    names.dedup();
+    for n in &names {
+        let _ = write!(s, "{:?}={:?};", n, index.get_anchor_bp_pos(n));
+    }
+    sections.push(("meta", s));
+    // cursor walk: every node's public view
+    let mut s = String::new();
+    let root = index.root(text);
+    let mut stack = vec![root];
+    let mut visited = 0usize;
+    let mut docs = 0usize;
+    while let Some(c) = stack.pop() {
+        visited += 1;
+        if visited > bp_len + 2 {
+            s.push_str("<LOOP>");
+            break;
+        }
+        if c.document_index().is_some() && c.parent().map(|p| p.bp_position()) == Some(0) {
+            docs += 1;
+        }
+        let _ = write!(
+            s,
+            "{}:{}/{}/{}/{:?}/{:?}/{:?}/{:?}/{},{}/{}:{}/{:?}/{:?};",
+            c.bp_position(),
+            c.kind(),
+            c.style(),
+            c.tag(),
+            c.anchor(),
+            c.alias(),
+            c.explicit_tag(),
+            c.line_comment_raw(),
+            opt(c.text_position()),
+            opt(c.text_end_position()),
+            c.line(),
+            c.column(),
+            c.document_index(),
+            c.raw_bytes().map(fnv64)
+        );
+        if let Some(n) = c.next_sibling() {
+            stack.push(n);
+        }
+        if let Some(f) = c.first_child() {
+            stack.push(f);
+        }
+    }
+    sections.push(("cur", s));
+    // line/column mapping (lazily built line index)
+    let mut s = String::new();
+    let mut pos = 0;
+    while pos <= text.len() {
+        let (l, c) = index.to_line_column(pos, text);
+        let _ = write!(s, "{l}:{c}>{};", opt(index.to_offset(l, c, text)));
+        pos += step;
+    }
+    sections.push(("lc", s));
+    // renderings
+    let (json_c, over) = render(|o| root.stream_json(o, IndentSpec::COMPACT, false));
+    let (json_d, _) = render(|o| root.stream_json_document(o, IndentSpec::spaces(2), true));
+    let mut js = format!("{json_c}\n{json_d}");
+    if !over {
+        js.push_str(&root.to_json());
+        js.push('\n');
+        js.push_str(&root.to_json_document());
+    }
+    sections.push(("json", js));
+    let (y1, _) = render(|o| root.stream_yaml_document(o, IndentSpec::spaces(2), false));
+    let (y2, _) = render(|o| root.stream_yaml(o, IndentSpec::COMPACT, false));
+    let (y3, _) = render(|o| root.stream_yaml_document(o, IndentSpec::spaces(4), true));
+    let mut ys = format!("{y1}\n--\n{y2}\n--\n{y3}");
+    let mut d = root.first_child();
+    let mut n = 0;
+    while let Some(doc) = d {
+        let (y, _) = render(|o| doc.stream_yaml_as_document(o, IndentSpec::spaces(2), false));
+        ys.push_str("\n--doc\n");
+        ys.push_str(&y);
+        d = doc.next_sibling();
+        n += 1;
+        if n > bp_len {
+            break;
+        }
+    }
+    sections.push(("yaml", ys));
+
+    let mut h = Fnv128::new();
+    let mut out = format!("ok len={} bp={} opens={} docs={}", text.len(), bp_len, opens.len(), docs);
+    let mut parts = String::new();
+    for (name, body) in &sections {
+        h.feed(name.as_bytes());
+        h.feed(&[0]);
+        h.feed(body.as_bytes());
+        h.feed(&[0xff]);
+        let _ = write!(parts, " {name}={:016x}", fnv64(body.as_bytes()));
+    }
+    let _ = write!(out, " h={:032x}{parts}", h.0);
+    // a few raw fields so that a replay is readable
+    let _ = write!(out, " | ib0={:x} bp0={:x}", index.ib().first().copied().unwrap_or(0), bp.words().first().copied().unwrap_or(0));
+    let jtxt = &sections.iter().find(|(n, _)| *n == "json").unwrap().1;
+    let cut = jtxt.char_indices().nth(60).map(|(i, _)| i).unwrap_or(jtxt.len());
+    let _ = write!(out, " json={}", hex_bytes(jtxt[..cut].as_bytes()));
+    out
 }
 
 // ------------------------------------------------------------------------------------------------
@@ -322,7 +560,7 @@ fn near(r: &mut Rng, trig: &[u8]) -> u8 {
     }
 }
 
-pub fn gen(tier: Tier, r: &mut Rng, emit: &mut dyn FnMut(String)) {
+fn gen_kernels(tier: Tier, r: &mut Rng, emit: &mut dyn FnMut(String)) {
     let quick = tier == Tier::Quick;
     // --- dispatch state of this process + clamp spellings
     let env = std::env::var("SUCCINCTLY_SIMD").ok();
@@ -646,4 +884,558 @@ pub fn gen(tier: Tier, r: &mut Rng, emit: &mut dyn FnMut(String)) {
         let buf: Vec<u8> = (0..len).map(|_| *r.pick(b"  \n\r  a \t\n x")).collect();
         emit(format!("C16 be {} {} {}", hex_bytes(&buf), r.usize_below(len + 2), r.usize_below(6)));
     }
+}
+
+// ------------------------------------------------------------------------------------------------
+// whole-index inputs: YAML aimed at the kernels (long plain scalars, quoted strings with escapes /
+// doubled quotes, block scalars, anchors / aliases, tags, comments, flow collections, LF / CR / CRLF
+// breaks), padded so structural bytes straddle 16/32-byte boundaries
+// ------------------------------------------------------------------------------------------------
+
+struct Y<'a> {
+    r: &'a mut Rng,
+    out: Vec<u8>,
+    brk: u8, // 0 LF, 1 CRLF, 2 CR, 3 mixed
+    anchors: Vec<String>,
+    budget: i32,
+}
+
+const WORDS: &[&str] = &[
+    "alpha", "beta", "x", "key", "value", "long-ish", "a:b", "c#d", "http://h/p?q=1", "42", "-7", "3.14", "1e3", "true", "null",
+    "~", "yes", "0x1F", "été", "日本", "it's", "say \"hi\"", "back\\slash", "tab\there", "q?", "-dash", "a,b", "[x]", "{y}",
+    "per%cent", "at@", "`tick`", "*star", "&amp", "!bang", "|pipe", ">gt",
+];
+
+const SAFE: &[&str] = &[
+    "alpha", "beta", "x1", "value", "long-ish", "a:b", "c#d", "http://h/p?q=1", "été", "日本", "it's", "q?", "per%cent", "at@",
+    "x*y", "a&b", "v!", "a|b", "a>b", "semi;colon", "under_score", "dot.ted", "3.14x", "w",
+];
+
+impl Y<'_> {
+    fn nl(&mut self) {
+        let k = if self.brk == 3 { self.r.below(3) as u8 } else { self.brk };
+        match k {
+            0 => self.out.push(b'\n'),
+            1 => self.out.extend_from_slice(b"\r\n"),
+            _ => self.out.push(b'\r'),
+        }
+    }
+    fn ind(&mut self, n: usize) {
+        for _ in 0..n {
+            self.out.push(b' ');
+        }
+    }
+    fn word(&mut self) -> String {
+        (*self.r.pick(WORDS)).to_string()
+    }
+    /// plain text safe inside a plain scalar (no ": ", no " #", no leading indicator)
+    fn plain_text(&mut self, min_len: usize) -> String {
+        let mut t = String::new();
+        loop {
+            t.push_str(*self.r.pick(SAFE));
+            if t.len() >= min_len && !self.r.chance(1, 3) {
+                break;
+            }
+            t.push(' ');
+        }
+        t
+    }
+    /// pad with a comment line so that the next byte lands at a chosen offset mod 32
+    fn align(&mut self, indent: usize) {
+        let target = *self.r.pick(&[0usize, 1, 15, 16, 17, 30, 31]);
+        let cur = self.out.len() % 32;
+        let mut need = (target + 64 - cur - indent % 32) % 32;
+        if need < 3 {
+            need += 32;
+        }
+        let bl = if self.brk == 1 { 2 } else { 1 };
+        if self.brk == 3 || need < bl + 1 {
+            return;
+        }
+        self.out.push(b'#');
+        for _ in 0..need - 1 - bl {
+            let c = *self.r.pick(b"abc xyz:-#'\"\\");
+            self.out.push(c);
+        }
+        self.nl();
+        self.ind(indent);
+    }
+    fn dq(&mut self) -> String {
+        let mut t = String::from("\"");
+        let n = self.r.below(6) + 1;
+        for i in 0..n {
+            if i > 0 {
+                t.push(' ');
+            }
+            match self.r.below(12) {
+                0 => t.push_str("\\\""),
+                1 => t.push_str("\\\\"),
+                2 => t.push_str("\\n"),
+                3 => t.push_str("\\t"),
+                4 => t.push_str("\\x41"),
+                5 => t.push_str("\\u00e9"),
+                6 => t.push_str("it's"),
+                7 => t.push_str(": # -"),
+                8 => {
+                    let l = self.r.usize_below(50);
+                    for _ in 0..l {
+                        t.push(*self.r.pick(&['a', 'b', ' ', 'z', 'é']));
+                    }
+                }
+                9 => t.push_str("\\/"),
+                _ => {
+                    let w = self.plain_text(0);
+                    t.push_str(&w);
+                }
+            }
+        }
+        t.push('"');
+        t
+    }
+    fn sq(&mut self) -> String {
+        let mut t = String::from("'");
+        let n = self.r.below(6) + 1;
+        for i in 0..n {
+            if i > 0 {
+                t.push(' ');
+            }
+            match self.r.below(8) {
+                0 => t.push_str("''"),
+                1 => t.push_str("\"dq\""),
+                2 => t.push_str("back\\slash"),
+                3 => t.push_str(": # -"),
+                4 => {
+                    let l = self.r.usize_below(50);
+                    for _ in 0..l {
+                        t.push(*self.r.pick(&['a', 'b', ' ', 'z', '日']));
+                    }
+                }
+                5 => t.push_str("'' ''"),
+                _ => {
+                    let w = self.plain_text(0).replace('\'', "''");
+                    t.push_str(&w);
+                }
+            }
+        }
+        t.push('\'');
+        t
+    }
+    fn props(&mut self) -> String {
+        let mut t = String::new();
+        if self.r.chance(1, 5) {
+            let name = match self.r.below(6) {
+                0 => "a".to_string(),
+                1 => format!("anc{}", self.r.below(9)),
+                2 => "with:colon".to_string(),
+                3 => format!("a-very-long-anchor-name-{}-crossing-a-chunk", self.r.below(99)),
+                4 => "é1".to_string(),
+                _ => format!("n{}", self.anchors.len()),
+            };
+            t.push('&');
+            t.push_str(&name);
+            t.push(' ');
+            self.anchors.push(name);
+        }
+        if self.r.chance(1, 6) {
+            t.push_str(*self.r.pick(&["!!str ", "!!int ", "!custom ", "!<tag:example.com,2000:x> ", "!e!t ", "! ", "!!map ", "!!seq "]));
+        }
+        t
+    }
+    fn trailing_comment(&mut self) {
+        if self.r.chance(1, 6) {
+            let pad = self.r.range(1, 3) as usize;
+            self.ind(pad);
+            self.out.push(b'#');
+            let l = self.r.usize_below(40);
+            for _ in 0..l {
+                let c = *self.r.pick(b"abc xyz:-#'\"\\[]{}");
+                self.out.push(c);
+            }
+        }
+    }
+    fn flow(&mut self, depth: u32) -> String {
+        let mut t = String::new();
+        let seq = self.r.chance(1, 2);
+        t.push(if seq { '[' } else { '{' });
+        let n = self.r.below(4);
+        for i in 0..n {
+            if i > 0 {
+                t.push_str(if self.r.chance(1, 4) { "," } else { ", " });
+            }
+            if !seq {
+                let k = self.plain_text(0);
+                t.push_str(&k.replace(' ', "_"));
+                t.push_str(": ");
+            }
+            match self.r.below(7) {
+                0 if depth < 2 => {
+                    let f = self.flow(depth + 1);
+                    t.push_str(&f)
+                }
+                1 => {
+                    let q = self.dq();
+                    t.push_str(&q)
+                }
+                2 => {
+                    let q = self.sq();
+                    t.push_str(&q)
+                }
+                3 if !self.anchors.is_empty() => {
+                    t.push('*');
+                    let a = self.r.pick(&self.anchors).clone();
+                    t.push_str(&a);
+                    t.push(' ');
+                }
+                _ => {
+                    let w = self.r.pick(&["1", "two", "x y", "null", "3.5", "a:b", "true"]).to_string();
+                    t.push_str(&w)
+                }
+            }
+        }
+        t.push(if seq { ']' } else { '}' });
+        t
+    }
+    /// value on the rest of the current line (after "key: " or "- "), then a line break
+    fn value(&mut self, indent: usize, depth: u32) {
+        self.budget -= 1;
+        let p = self.props();
+        self.out.extend_from_slice(p.as_bytes());
+        let choice = if self.budget <= 0 || depth > 4 { self.r.below(6) } else { self.r.below(12) };
+        match choice {
+            0 => {
+                let ml = *self.r.pick(&[0usize, 0, 10, 30, 60, 100]);
+                let t = self.plain_text(ml);
+                self.out.extend_from_slice(t.as_bytes());
+                self.trailing_comment();
+                self.nl();
+            }
+            1 => {
+                let t = self.dq();
+                self.out.extend_from_slice(t.as_bytes());
+                self.trailing_comment();
+                self.nl();
+            }
+            2 => {
+                let t = self.sq();
+                self.out.extend_from_slice(t.as_bytes());
+                self.trailing_comment();
+                self.nl();
+            }
+            3 => {
+                let w = self.word();
+                self.out.extend_from_slice(w.as_bytes());
+                self.trailing_comment();
+                self.nl();
+            }
+            4 => {
+                if !self.anchors.is_empty() && p.is_empty() {
+                    self.out.push(b'*');
+                    let a = self.r.pick(&self.anchors).clone();
+                    self.out.extend_from_slice(a.as_bytes());
+                } else {
+                    self.out.extend_from_slice(b"~");
+                }
+                self.trailing_comment();
+                self.nl();
+            }
+            5 => {
+                let f = self.flow(0);
+                self.out.extend_from_slice(f.as_bytes());
+                self.trailing_comment();
+                self.nl();
+            }
+            6 | 7 => {
+                // block scalar
+                self.out.push(*self.r.pick(b"|>"));
+                let extra = match self.r.below(5) {
+                    0 => "-",
+                    1 => "+",
+                    2 => "2",
+                    3 => "2-",
+                    _ => "",
+                };
+                self.out.extend_from_slice(extra.as_bytes());
+                self.trailing_comment();
+                self.nl();
+                let ci = if extra.starts_with('2') { indent + 2 } else { indent + self.r.range(1, 4) as usize };
+                let lines = self.r.below(6) + 1;
+                for _ in 0..lines {
+                    match self.r.below(8) {
+                        0 => {} // empty line
+                        1 => {
+                            let n = self.r.usize_below(ci + 3);
+                            self.ind(n); // spaces-only line
+                        }
+                        2 => {
+                            let n = ci + *self.r.pick(&[14usize, 15, 16, 17, 30, 31, 32, 33]);
+                            self.ind(n);
+                            self.out.extend_from_slice(b"deep");
+                        }
+                        _ => {
+                            let n = ci + self.r.usize_below(3);
+                            self.ind(n);
+                            let ml = *self.r.pick(&[0usize, 5, 20, 45, 70]);
+                            let t = self.plain_text(ml);
+                            self.out.extend_from_slice(t.as_bytes());
+                            if self.r.chance(1, 5) {
+                                self.out.extend_from_slice(b": # not a comment \" ' \\");
+                            }
+                        }
+                    }
+                    self.nl();
+                }
+            }
+            8 | 9 => {
+                self.trailing_comment();
+                self.nl();
+                let i2 = indent + self.r.range(1, 4) as usize;
+                self.mapping(i2, depth + 1);
+            }
+            10 => {
+                self.trailing_comment();
+                self.nl();
+                let i2 = if self.r.chance(1, 2) { indent } else { indent + 2 };
+                self.sequence(i2, depth + 1);
+            }
+            _ => {
+                // multi-line plain scalar (continuation line)
+                let t = self.plain_text(20);
+                self.out.extend_from_slice(t.as_bytes());
+                self.nl();
+                self.ind(indent + 2);
+                let t = self.plain_text(10);
+                self.out.extend_from_slice(t.as_bytes());
+                self.nl();
+            }
+        }
+    }
+    fn key(&mut self) -> String {
+        match self.r.below(8) {
+            0 => self.dq(),
+            1 => self.sq(),
+            2 => format!("k{}", self.r.below(100)),
+            3 => "a-rather-long-key-name-that-goes-on-and-on-past-thirty-two-bytes".to_string(),
+            _ => {
+                let t = self.plain_text(0);
+                t.replace(' ', "_")
+            }
+        }
+    }
+    fn mapping(&mut self, indent: usize, depth: u32) {
+        let n = self.r.below(4) + 1;
+        for _ in 0..n {
+            if self.r.chance(1, 10) {
+                // comment-only / blank line
+                if self.r.chance(1, 2) {
+                    let k = self.r.usize_below(indent + 2);
+                    self.ind(k);
+                    self.out.extend_from_slice(b"# own-line comment");
+                }
+                self.nl();
+            }
+            self.ind(indent);
+            if self.r.chance(1, 6) {
+                self.align(indent);
+            }
+            if self.r.chance(1, 12) {
+                self.out.extend_from_slice(b"? ");
+                let k = self.key();
+                self.out.extend_from_slice(k.as_bytes());
+                self.nl();
+                self.ind(indent);
+                self.out.extend_from_slice(b": ");
+            } else {
+                let k = self.key();
+                self.out.extend_from_slice(k.as_bytes());
+                self.out.push(b':');
+                let sp = *self.r.pick(&[1usize, 1, 1, 2, 9, 17, 33]);
+                self.ind(sp);
+            }
+            self.value(indent, depth);
+        }
+    }
+    fn sequence(&mut self, indent: usize, depth: u32) {
+        let n = self.r.below(4) + 1;
+        for _ in 0..n {
+            self.ind(indent);
+            self.out.push(b'-');
+            if self.r.chance(1, 8) && depth < 4 {
+                // "- key: v" compact mapping / nested "- - x"
+                self.out.push(b' ');
+                if self.r.chance(1, 2) {
+                    let k = self.key();
+                    self.out.extend_from_slice(k.as_bytes());
+                    self.out.extend_from_slice(b": ");
+                    self.value(indent + 2, depth + 1);
+                } else {
+                    self.out.extend_from_slice(b"- ");
+                    self.value(indent + 2, depth + 1);
+                }
+            } else if self.r.chance(1, 12) {
+                self.nl(); // bare dash
+            } else {
+                let sp = *self.r.pick(&[1usize, 1, 1, 3, 16, 32]);
+                self.ind(sp);
+                self.value(indent, depth);
+            }
+        }
+    }
+    fn document(&mut self) {
+        match self.r.below(8) {
+            0 => self.sequence(0, 0),
+            1 => {
+                let sp = self.r.usize_below(3);
+                self.ind(sp);
+                self.value(0, 0)
+            }
+            _ => self.mapping(0, 0),
+        }
+    }
+}
+
+fn gen_yaml(r: &mut Rng) -> Vec<u8> {
+    let brk = *r.pick(&[0u8, 0, 0, 1, 1, 2, 2, 3]);
+    let budget = *r.pick(&[3i32, 6, 12, 25]);
+    let mut y = Y { r, out: Vec::new(), brk, anchors: Vec::new(), budget };
+    if y.r.chance(1, 12) {
+        y.out.extend_from_slice(b"%YAML 1.2");
+        y.nl();
+        y.out.extend_from_slice(b"---");
+        y.nl();
+    } else if y.r.chance(1, 5) {
+        y.out.extend_from_slice(b"---");
+        if y.r.chance(1, 3) {
+            y.out.extend_from_slice(b" # doc comment");
+        }
+        y.nl();
+    }
+    let docs = if y.r.chance(1, 5) { y.r.below(3) + 2 } else { 1 };
+    for d in 0..docs {
+        if d > 0 {
+            if y.r.chance(1, 3) {
+                y.out.extend_from_slice(b"...");
+                y.nl();
+            }
+            y.out.extend_from_slice(b"---");
+            y.nl();
+            y.budget = budget;
+        }
+        y.document();
+    }
+    if y.r.chance(1, 6) {
+        // no final line break
+        while matches!(y.out.last(), Some(b'\n' | b'\r')) {
+            y.out.pop();
+        }
+    }
+    y.out
+}
+
+fn mutate(r: &mut Rng, mut b: Vec<u8>) -> Vec<u8> {
+    let n = r.below(4) + 1;
+    for _ in 0..n {
+        if b.is_empty() {
+            b.push(r.byte());
+            continue;
+        }
+        let i = r.usize_below(b.len());
+        match r.below(9) {
+            0 => b[i] = r.byte(),
+            1 => b[i] = *r.pick(b"\n\r:-#\"'\\ &*!|>[]{},?%@`\t"),
+            2 => {
+                b.remove(i);
+            }
+            3 => b.insert(i, *r.pick(b"\n\r:-#\"'\\ &*!|>[]{},?\t")),
+            4 => {
+                // delete a range
+                let l = r.usize_below(20).min(b.len() - i);
+                b.drain(i..i + l);
+            }
+            5 => {
+                // LF -> CR everywhere after i
+                for c in b[i..].iter_mut() {
+                    if *c == b'\n' {
+                        *c = b'\r';
+                    }
+                }
+            }
+            6 => {
+                // insert a run that shifts everything past a chunk boundary
+                let l = *r.pick(&[1usize, 15, 16, 17, 31, 32, 33]);
+                let c = *r.pick(b" a");
+                for _ in 0..l {
+                    b.insert(i, c);
+                }
+            }
+            7 => b.truncate(i),
+            _ => {
+                // duplicate a slice
+                let l = r.usize_below(30).min(b.len() - i);
+                let sl: Vec<u8> = b[i..i + l].to_vec();
+                let j = r.usize_below(b.len() + 1);
+                for (k, c) in sl.into_iter().enumerate() {
+                    b.insert(j + k, c);
+                }
+            }
+        }
+    }
+    b
+}
+
+fn gen_idx(tier: Tier, r: &mut Rng, emit: &mut dyn FnMut(String)) {
+    let quick = tier == Tier::Quick;
+    // fixed shapes at every alignment: `off` filler bytes between a prefix and the interesting byte
+    let shapes: &[(&[u8], &[u8])] = &[
+        (b"k: \"", b"\\\" tail\"\nz: 1\n"),
+        (b"k: '", b"'' tail'\nz: 1\n"),
+        (b"k: ", b" # comment\nz: 1\n"),
+        (b"k: ", b": v\n"),
+        (b"k: ", b"\rz: 1\r"),
+        (b"k: ", b"\r\nz: 1\r\n"),
+        (b"k: |\n  ", b"\n  more\nz: 1\n"),
+        (b"k: |\r  ", b"\r  more\rz: 1\r"),
+        (b"k: &", b" v\nz: *a\n"),
+        (b"- &", b": v\n"),
+        (b"k: [", b", 2]\n"),
+        (b"k: >\n", b"text\nz: 1\n"),
+    ];
+    let step = if quick { 3 } else { 1 };
+    for (pre, post) in shapes {
+        let mut off = 0;
+        while off <= 70 {
+            let mut b = pre.to_vec();
+            let fill = if pre.ends_with(b">\n") { b' ' } else { b'a' };
+            for _ in 0..off {
+                b.push(fill);
+            }
+            b.extend_from_slice(post);
+            emit(format!("C16 idx {}", hex_bytes(&b)));
+            off += step;
+        }
+    }
+    let n = if quick { 2500 } else { 60_000 };
+    for i in 0..n {
+        let mut b = gen_yaml(r);
+        if b.len() > 60_000 {
+            b.truncate(60_000);
+        }
+        match i % 10 {
+            0..=5 => {}
+            6 | 7 | 8 => b = mutate(r, b),
+            _ => {
+                // arbitrary bytes over a YAML-heavy alphabet
+                let l = r.usize_below(120);
+                b = (0..l)
+                    .map(|_| if r.chance(1, 12) { r.byte() } else { *r.pick(b"ab  \n\n\r:-#\"'\\&*!|>[]{},? x1") })
+                    .collect();
+            }
+        }
+        emit(format!("C16 idx {}", hex_bytes(&b)));
+    }
+}
+
+pub fn gen(tier: Tier, r: &mut Rng, emit: &mut dyn FnMut(String)) {
+    let mut ri = r.fork("idx");
+    gen_kernels(tier, r, emit);
+    gen_idx(tier, &mut ri, emit);
 }
